@@ -25,3 +25,18 @@ build_backend() {
   fi
   return 0
 }
+
+# build_cli <ring|aws> -> $HARNESS/target/cli-<backend>/release/rustls-cert-gen, from /repo's working tree, hooks off
+build_cli() {
+  b=$1
+  case $b in
+    ring) feats="--no-default-features --features ring" ;;
+    aws) feats="--no-default-features --features aws_lc_rs" ;;
+  esac
+  if ! (RUSTFLAGS="" cargo build --release --offline --locked --manifest-path /repo/Cargo.toml -p rustls-cert-gen $feats --target-dir "$HARNESS/target/cli-$b") >"$LOGDIR/build-cli-$b.log" 2>&1; then
+    echo "MACHINERY-ERROR: CLI build ($b) failed; last lines of $LOGDIR/build-cli-$b.log:" >&2
+    tail -n 25 "$LOGDIR/build-cli-$b.log" >&2
+    return 2
+  fi
+  return 0
+}
